@@ -153,13 +153,15 @@ def compiles_to(text: str, want: tuple) -> bool:
     return oracle.shape(JSONPathEnvironment().compile(text)) == tup(want)
 
 
-FIRSTS = ["1", "@.a", "length(@.a)", "@.*", "match(@.a, 'a')"]
+FIRSTS = ["@.a", "length(@.a)", "1"]
+ARGS_H = [("1", "lit"), ("@.a", "singular"), ("@.*", "nonsingular"), ("count(@.*)", "valuefn"), ("match(@.a, 'a')", "logicalfn"), ("@['a','b']", "nonsingular")]
 
 
 def typing_history(f: int, x0: int, x: int, y: int) -> bool:
     """Two compilations on ONE fresh environment: what the first call was given does not change the verdict on the second.
 
-    pre: FLO <= f <= FHI and 0 <= x0 < len(FIRSTS) and 0 <= x < len(ARGS) and 0 <= y < len(ARGS)
+    pre: FLO <= f <= FHI and 0 <= x0 < len(FIRSTS) and 0 <= x < len(ARGS_H) and 0 <= y < len(ARGS_H)
+    pre: len(FUNCS[FLO][1]) > 1 or y == 0
     post: _
     """
     env = JSONPathEnvironment()
@@ -169,7 +171,7 @@ def typing_history(f: int, x0: int, x: int, y: int) -> bool:
         env.compile(first)
     except jsonpath.JSONPathError:
         pass
-    ax, ay = pick(ARGS, x), pick(ARGS, y)
+    ax, ay = pick(ARGS_H, x), pick(ARGS_H, y)
     text = "$[?" + tpl.format(ax[0], ay[0]) + "]"
     exp = ax[1] in kinds[0] and (len(kinds) < 2 or ay[1] in kinds[1])
     try:
